@@ -114,6 +114,32 @@ Theorem C02_steady_change : forall (t : tree RD) (lg : Z -> bool) (lev chg : Z -
 Proof. exact steady_change_correct. Qed.
 Print Assumptions C02_steady_change.
 
+(* the second block row [Ak, Bk + k*Ak] of the non-flat steady Jacobian: residuals evaluated k periods ahead *)
+Theorem C02_steady_level_shifted : forall (t : tree RD) (lg : Z -> bool) (lev chg : Z -> R) (q0 k : Z),
+  adm t (shift_rho RD (steady_path lg lev chg) k) ->
+  result_ok (fun u => shift_rho RD (steady_path lg (updz lev q0 u) chg) k) (lev q0) t
+            (eval RD (shift_rho RD (steady_path lg lev chg) k) (seed_level RD q0) lg t).
+Proof. exact steady_level_shifted. Qed.
+Print Assumptions C02_steady_level_shifted.
+
+Theorem C02_steady_change_shifted : forall (t : tree RD) (lg : Z -> bool) (lev chg : Z -> R) (q0 k : Z),
+  adm t (shift_rho RD (steady_path lg lev chg) k) ->
+  match eval RD (shift_rho RD (steady_path lg lev chg) k) (seed_level RD q0) lg t,
+        eval RD (shift_rho RD (steady_path lg lev chg) k) (seed_change RD q0) lg t with
+  | VA dA, VA dB =>
+      is_derive (fun u => den t (shift_rho RD (steady_path lg lev (updz chg q0 u)) k)) (chg q0)
+                (snd dB + IZR k * snd dA)
+  | _, _ => True
+  end.
+Proof. exact steady_change_shifted. Qed.
+Print Assumptions C02_steady_change_shifted.
+
+(* the computed diff is linear in the seeds *)
+Theorem C02_eval_linear : forall rho lg sd1 sd2 c (t : tree RD),
+  lin3 c (eval RD rho sd1 lg t) (eval RD rho sd2 lg t) (eval RD rho (sd3 sd1 sd2 c) lg t).
+Proof. exact eval_linear. Qed.
+Print Assumptions C02_eval_linear.
+
 (* a token that does not occur in an equation: the true derivative is 0 *)
 Theorem C02_partial_absent : forall (t : tree RD) rho v (g : R -> R) x, ~ In v (vars RD t) ->
   is_derive (fun u => den t (upd rho v (g u))) x 0.
